@@ -547,6 +547,12 @@ def check_mne(case):
                 '%s: times %s, expected %s' % (what, t, want_t), 'mne:times')
 
     compare(ds, 'dataset_from_epochs', True)
+    # the dataset owns its numbers: working on it in place leaves the epochs as they were, so a
+    # second import gives the recorded data again
+    ds.measurements[...] = ds.measurements + 1.0
+    ds_again = lib(MN.dataset_from_epochs, ep, on_error='violation', sig='mne:dataset_from_epochs:raises')
+    compare(ds_again, 'dataset_from_epochs (second import, after the first dataset was changed in place)',
+            True)
     for k, v in (descs or {}).items():
         require(ds.descriptors.get(k) == v, 'descriptor %s lost' % k, 'mne:descriptors')
 
